@@ -9,9 +9,10 @@ use std::collections::BTreeSet;
 use std::path::Path;
 
 // "a-b" and "a.c": siblings of "a" whose next byte sorts before '/', i.e. between "a" and "a/..." in byte order
-pub const DIRS: [&str; 12] = ["a", "ab", "a/c", "a/cd", "a/c/e", "b", "a/c/e/g", "abc", "caf\u{e9}", "caf\u{e9}s", "a-b", "a.c"];
-pub const EXTRA: [&str; 13] = [
-    "lib", "lib2", "lib/x", "a/f", "a/c/f", "a/c/gen", "ab/f", "b/f", "x.txt", "a/c/e/h", "li", "caf\u{e9}/f", "caf",
+// "x.txt": a target whose path is a single regular file, not a directory
+pub const DIRS: [&str; 13] = ["a", "ab", "a/c", "a/cd", "a/c/e", "b", "a/c/e/g", "abc", "caf\u{e9}", "caf\u{e9}s", "a-b", "a.c", "x.txt"];
+pub const EXTRA: [&str; 12] = [
+    "lib", "lib2", "lib/x", "a/f", "a/c/f", "a/c/gen", "ab/f", "b/f", "a/c/e/h", "li", "caf\u{e9}/f", "caf",
 ];
 
 pub fn setup(root: &Path) {
